@@ -72,8 +72,14 @@ func runR044(c *Ctx) {
 		return
 	}
 	lock, free := mutexField(n, "lock"), structField(n, "freeOffsets")
-	if lock == nil || free == nil {
-		c.Broken("allocator lock / freeOffsets not found")
+	if free == nil {
+		c.Broken("allocator free list (freeOffsets) not found")
+		return
+	}
+	if lock == nil {
+		// Release() is reached from the Close of a reader and from the unlocked copy phase of an upload –
+		// without the store lock; a free list without a mutex of the allocator's own is unprotected there
+		c.Fail("blockDeviceBackedBlockAllocator", "free-list lock", c.Pos(n.Obj().Pos()), "the allocator has no mutex of its own: its free list is appended to by blockDeviceBackedBlock.Release (called when a reader is closed or an upload finishes, without the store lock) while NewBlock / NewBlockAtLocation take regions from it – a region can be handed out twice or lost")
 		return
 	}
 	spec := &LockSpec{RuleID: c.rule.ID, Pkg: c.Pkg(localRel), Lock: lock,
@@ -215,6 +221,35 @@ func runR043(c *Ctx) {
 		}
 	})
 	c.Check(nAdd == 1 && hands, FuncName(get), "take-reference", c.Pos(get.Pos()), "Get takes one reference and hands the block to the reader that will drop it", "Get does not take exactly one reference or does not hand the block to a blockDeviceBackedBlockReader")
+	// … on every path: once the reference is taken, no return is reached without the block having been
+	// handed to a reader (or the reference having been dropped again)
+	isHandOff := func(ins ssa.Instruction) bool {
+		if st, ok := ins.(*ssa.Store); ok {
+			if f := fieldOf(st.Addr); f != nil && f.Name() == "block" && st.Val == ssa.Value(get.Params[0]) {
+				return true
+			}
+		}
+		if cc := callOf(ins); cc != nil && cc.StaticCallee() != nil && cc.StaticCallee().Name() == "Release" {
+			return true
+		}
+		return false
+	}
+	var leakAt *ssa.Return
+	allInstrs(get, func(ins ssa.Instruction) {
+		if !isUsecountAdd(ins, 1) {
+			return
+		}
+		for _, r := range returnsOf(get) {
+			if leakAt == nil && reachableAvoiding(ins, r, isHandOff) {
+				leakAt = r
+			}
+		}
+	})
+	if leakAt != nil {
+		c.Fail(FuncName(get), "take-reference-paths", c.Pos(leakAt.Pos()), "a path returns after the reader's reference was taken without handing the block to a blockDeviceBackedBlockReader (whose Close drops the reference) and without releasing it: the use count never returns to zero and the block's region never goes back to the free list")
+	} else if nAdd == 1 {
+		c.Pass(FuncName(get), "take-reference-paths", c.Pos(get.Pos()), "every path that took the reference hands the block to a reader")
+	}
 	// Reader.Close releases exactly once and clears the field
 	relCalls, clears := 0, false
 	min, max := 1<<30, -1
